@@ -7,6 +7,7 @@ export GOFLAGS=-mod=mod GOPROXY=off GOSUMDB=off GOTOOLCHAIN=local
 cd "$(dirname "$0")/.."
 mkdir -p /tmp/final
 export VERIF_JOBS=${VERIF_JOBS:-6}
+export VERIF_WATCHDOG_S=${VERIF_WATCHDOG_S:-240}  # a child hung by a seeded change is given up after 4 minutes (quick shards take seconds)
 one() {
   case "$1" in
     own) RESULTS_OUT=/tmp/final/own.json ./selftest/run_own.py --all > /tmp/final/all_own.log 2>&1 ;;
